@@ -17,11 +17,11 @@ WATCHDOG = {"quick": 900, "thorough": 3000}
 
 
 def cases(ctx):
-    for i in range(ctx.pick(450, 15000)):
+    for i in range(ctx.pick(450, 90000)):
         yield "worst_history", {"seed": ctx.subseed("w", i)}
-    for i in range(ctx.pick(450, 15000)):
+    for i in range(ctx.pick(450, 90000)):
         yield "gradient_history", {"seed": ctx.subseed("g", i)}
-    for i in range(ctx.pick(48, 1500)):
+    for i in range(ctx.pick(48, 9000)):
         yield "run", {"seed": ctx.subseed("r", i), "algo": ["nsga2", "epsmoea", "sweep"][i % 3], "evaluator": ["worst", "gradient"][(i // 3) % 2]}
 
 
